@@ -4,8 +4,9 @@ CONSTANTS
   KindOf <- DemoKind
   ClassesOf <- DemoClasses
   ConflictsOf <- DemoConflicts
+  SecretOf <- DemoSecret
   Width = 2
   Defects <- NoDefects
 SPECIFICATION Spec
-INVARIANTS FactsPreserved DumpStable SetSurvives
+INVARIANTS FactsPreserved DumpStable SetSurvives AdminReadOnly
 CHECK_DEADLOCK FALSE
